@@ -401,6 +401,30 @@ func (p *printer) tryToGetImportedEnumValueUTF16(target js_ast.Expr, name []uint
 	return js_ast.TSEnumValue{}, "", false
 }
 
+// This returns true for an expression that will be printed as an inlined numeric
+// enum value (either one inlined by the parser or a cross-module one that is
+// inlined by the printer).
+func (p *printer) isInlinedEnumNumber(expr js_ast.Expr) bool {
+	switch e := expr.Data.(type) {
+	case *js_ast.EInlinedEnum:
+		_, ok := e.Value.Data.(*js_ast.ENumber)
+		return ok
+
+	case *js_ast.EDot:
+		if value, ok := p.tryToGetImportedEnumValue(e.Target, e.Name); ok {
+			return value.String == nil
+		}
+
+	case *js_ast.EIndex:
+		if index, ok := e.Index.Data.(*js_ast.EString); ok {
+			if value, _, ok := p.tryToGetImportedEnumValueUTF16(e.Target, index.Value); ok {
+				return value.String == nil
+			}
+		}
+	}
+	return false
+}
+
 func (p *printer) printClauseAlias(loc logger.Loc, alias string) {
 	if js_ast.IsIdentifier(alias) {
 		p.printSpaceBeforeIdentifier()
@@ -3432,7 +3456,10 @@ func (v *binaryExprVisitor) checkAndPrepare(p *printer) bool {
 
 	case js_ast.BinOpPow:
 		// "**" can't contain certain unary expressions
-		if left, ok := e.Left.Data.(*js_ast.EUnary); ok && left.Op.UnaryAssignTarget() == js_ast.AssignTargetNone {
+		if p.isInlinedEnumNumber(e.Left) {
+			// Inlined enum values can be negative numbers, which are printed using a unary operator
+			v.leftLevel = js_ast.LCall
+		} else if left, ok := e.Left.Data.(*js_ast.EUnary); ok && left.Op.UnaryAssignTarget() == js_ast.AssignTargetNone {
 			v.leftLevel = js_ast.LCall
 		} else if _, ok := e.Left.Data.(*js_ast.EAwait); ok {
 			v.leftLevel = js_ast.LCall
